@@ -3,7 +3,7 @@
    not call save_session themselves (saves are the explicit operations of the history);
    untouched: no operation of the history saves on that (transport, namespace) pair or ends
    that transport. *)
-From VT Require Import Server.Sessions.
+From VT Require Import Server.Sessions Server.SessionsFold.
 
 Theorem C16_get_after_save : forall sid v pns s e,
   eio_from_sid (mg s) sid (ns_or_default pns) = Some e -> In e (live s) ->
@@ -104,6 +104,104 @@ Theorem C16_fold_api_partial : forall c s st o r es,
               link (fst (step c s o)) st'.
 Proof. exact Sessions.C16_fold_api_partial. Qed.
 Print Assumptions C16_fold_api_partial.
+
+(* ---- executable form over whole histories ----
+   The checker c16_fold accepts the model's own run on every history (from srv_init, or from any
+   state satisfying the replay invariant FoldInv: Inv, the link, and the ghosts "unissued session
+   ids have no specification entry" / "never-occupied slots hold no session") in which no
+   (namespace, sid, transport) triple newly appears on a (transport, namespace) slot that was
+   already occupied since that transport was opened (no_ns_rejoin).  That is exactly the shape of
+   C16_fresh_refuted, and the exclusion is necessary: c16_fold rejects that history
+   (C16_fold_run_examples, last clause).  A transport that is closed and opened again under the
+   same engine.io id is NOT excluded.  Every operation kind is covered, and handlers may read the
+   session (AGet) in connect, event and disconnect handlers.
+
+   The second exclusion, reads_attributable, is about the checker, not the model: c16_fold
+   attributes the Ret effects that follow a Call to the first argument of the Call that names a
+   connected session id (sid_in_args).  reads_attributable says (1) the session-id-like strings
+   among the arguments of every Call are all the same and (2) no namespace in use is named like a
+   session id.  Without (1) the statement is false (C16_fold_attribution_refuted: a catch-all
+   handler and an event named after another client's session id).  (2) is only used for the
+   legacy disconnect retry that drops the session id from the arguments; it is not shown to be
+   necessary.
+   C16_fold_run_partial is the variant without any attribution hypothesis for configurations
+   whose handlers do not read (no_get_actions). *)
+Theorem C16_fold_run_except : forall c ops,
+  no_save_actions c -> cfg_ok c -> Forall op_ok ops ->
+  no_ns_rejoin c srv_init [] ops = true -> reads_attributable c srv_init ops = true ->
+  c16_fold c srv_init [] ops (snd (run c srv_init ops)) = true.
+Proof. exact fold_accepts_reads_init. Qed.
+Print Assumptions C16_fold_run_except.
+
+Theorem C16_fold_run_from_except : forall c,
+  no_save_actions c -> cfg_ok c ->
+  forall ops, Forall op_ok ops -> forall s st seen, FoldInv s st seen -> one_ns s ->
+  no_ns_rejoin c s seen ops = true -> reads_attributable c s ops = true ->
+  c16_fold c s st ops (snd (run c s ops)) = true.
+Proof. exact fold_accepts_reads. Qed.
+Print Assumptions C16_fold_run_from_except.
+
+Theorem C16_fold_attribution_refuted :
+  exists c ops,
+    no_save_actions c /\ cfg_ok c /\ Forall op_ok ops /\ no_ns_rejoin c srv_init [] ops = true /\
+    last (snd (run c srv_init ops)) [] = [Call 2 [PStr (sid_name 0); PStr (sid_name 1)]; Ret (PDict [])] /\
+    reads_attributable c srv_init ops = false /\
+    c16_fold c srv_init [] ops (snd (run c srv_init ops)) = false.
+Proof. exact fold_attribution_refuted. Qed.
+Print Assumptions C16_fold_attribution_refuted.
+
+Theorem C16_fold_run_partial : forall c ops,
+  no_save_actions c -> no_get_actions c -> cfg_ok c -> Forall op_ok ops ->
+  no_ns_rejoin c srv_init [] ops = true ->
+  c16_fold c srv_init [] ops (snd (run c srv_init ops)) = true.
+Proof. exact fold_accepts_init. Qed.
+Print Assumptions C16_fold_run_partial.
+
+Theorem C16_fold_run_from_partial : forall c,
+  no_save_actions c -> no_get_actions c -> cfg_ok c ->
+  forall ops, Forall op_ok ops -> forall s st seen, FoldInv s st seen ->
+  no_ns_rejoin c s seen ops = true -> c16_fold c s st ops (snd (run c s ops)) = true.
+Proof. exact fold_accepts. Qed.
+Print Assumptions C16_fold_run_from_partial.
+
+(* one step, every operation kind: the head of c16_fold (c16_head, see C16_fold_cons) accepts the
+   model's own step and the replay invariant is re-established *)
+Theorem C16_fold_step_except : forall c s st seen o,
+  no_save_actions c -> cfg_ok c -> op_ok o -> FoldInv s st seen -> one_ns s ->
+  join_ok s (fst (step c s o)) seen = true ->
+  reads_ok s (fst (step c s o)) (snd (step c s o)) = true ->
+  c16_head c s st o (snd (step c s o)) = true /\
+  (FoldInv (fst (step c s o)) (st_next s st o) (seen_next (fst (step c s o)) seen) /\
+   one_ns (fst (step c s o))).
+Proof. exact fold_step_reads. Qed.
+Print Assumptions C16_fold_step_except.
+
+Theorem C16_fold_cons : forall c s st o r e es,
+  c16_fold c s st (o :: r) (e :: es) = c16_head c s st o e && c16_fold c (fst (step c s o)) (st_next s st o) r es.
+Proof. exact c16_fold_cons. Qed.
+Print Assumptions C16_fold_cons.
+
+(* non-vacuity.  w_ops: two clients, three sessions on two namespaces, saves, a session() block,
+   an event, a namespace left for good, a transport loss, the reconnect of the lost engine.io id
+   and a server-side disconnect.  With r_cfg the connect, "msg" and disconnect handlers read the
+   session (what they read is listed); with w_cfg no handler reads.  Last clauses: the refuting
+   history of C16_fresh_refuted is excluded by no_ns_rejoin, and c16_fold rejects it. *)
+Theorem C16_fold_run_examples :
+  (no_save_actions r_cfg /\ cfg_ok r_cfg /\ Forall op_ok w_ops /\
+   no_ns_rejoin r_cfg srv_init [] w_ops = true /\ reads_attributable r_cfg srv_init w_ops = true /\
+   flat_map (fun es => if existsb (fun x => match x with Call _ _ => true | _ => false end) es
+                       then flat_map (fun x => match x with Ret v => [v] | _ => [] end) es else [])
+            (snd (run r_cfg srv_init w_ops)) =
+     [PDict []; PDict []; PDict []; y_secret; y_secret; PDict []; PDict [(PStr (s2l "k"), PInt 3)]]) /\
+  (no_save_actions w_cfg /\ no_get_actions w_cfg /\ cfg_ok w_cfg /\ Forall op_ok w_ops /\
+   no_ns_rejoin w_cfg srv_init [] w_ops = true /\
+   map (fun es => match es with [Ret v] => Some v | _ => None end)
+       (filter (fun es => match es with [Ret _] | [Raised _] => true | _ => false end) (snd (run w_cfg srv_init w_ops))) =
+     [Some (PDict []); None; Some y_secret; None; Some (PDict [(PStr (s2l "k"), PInt 3)]); Some (PDict [])] /\
+   no_ns_rejoin y_cfg srv_init [] y_ops = false) /\
+  c16_fold y_cfg srv_init [] y_ops (snd (run y_cfg srv_init y_ops)) = false.
+Proof. exact (conj r_hypotheses (conj w_hypotheses y_rejected)). Qed.
+Print Assumptions C16_fold_run_examples.
 
 Theorem C16_example :
   let s1 := fst (fst (api_save_session (sid_name 0) y_secret None y_state)) in
